@@ -944,7 +944,10 @@ def c09(ctx):
               # the name of a loop used where a text is expected (it holds a map)
               "find all at least 1 'a' named lp lp", "replace all at least 1 ('a' = c) named lp with lp '-' c",
               "set t to transform return lp + match end replace all at least 1 'a' named lp with t",
-              "find all at least 1 (at least 1 'a' named inner 'b') named outer inner"]
+              "find all at least 1 (at least 1 'a' named inner 'b') named outer inner",
+              # amounts far beyond any number of matches (and beyond what fits the model's integers): nothing is allocated up front
+              "find take 1000000000000000 'a'", "find top 4000000000 'a'", "find skip 1 take 9000000000000000000 'a'", "find last 3000000000 'a'",
+              "replace skip 2000000000 'a' with 'x'"]
     etexts = [[], [97], [97, 98], [98, 97, 32, 97, 98], [97, 45, 93, 97], [32, 97, 97, 98, 10, 97], [95, 49, 97, 32]]
     ecases = [{"id": i + 1, "src": sct, "texts": etexts} for i, sct in enumerate(extras)]
     eexps = [{"id": c["id"], "r": [{"t": t, "ms": [], "firm": False, "undef": False, "noret": False} for t in c["texts"]]} for c in ecases]
@@ -1288,6 +1291,11 @@ def c08(ctx):
     lines += [{"text": t} for t in ["find all @/(?=a)b/", "find all @/a(?!b)/", "find all @/(?<=a)b/", "find all @/(?<!a)b/", "find all @/(?<n/", "find all @/(?<n>a/",
                                     "find all @/\\w+\\b/", "find all @/\\W\\B/", "find all @/[a-/", "find all @/[a-]/", "find all @/[]-a]/", "find all @/a{2,1}/",
                                     "find all @/(?/", "find all @/(?</", "find all @/\\k<n>/", "find all @/\\k<n/", "find all @/\\9/"]]
+    lines += [{"text": t} for t in ["set f to transform set a to 1 set b to 'x' loop set t to a set a to b set b to t break end return 'r' end replace all 'a' with f",
+                                    "set f to transform set a to 1 loop set a to a + 'x' set a to 2 break end return a end replace all 'a' with f",
+                                    "set f to transform set a to true set b to 1 set c to 'x' loop set t to a set a to b set b to c set c to t break end return 'r' end replace all 'a' with f",
+                                    "set p to pattern 'a' begin set a to 1 set b to 'x' loop set t to a set a to b set b to t break end return true end find all p",
+                                    "set f to transform loop loop set a to 1 set a to 'x' break end set a to true break end return 'r' end replace all 'a' with f"]]
     lines += [{"text": t} for t in ["find all 'a' --", "find all 'a' --(", "find all 'a' --()", "find all 'a' --()-", "find all 'a' --())", "find all 'a' --()-)",
                                     "find all 'a' ---", "--\nfind all 'a'", "--()-)--find all 'a'", "find all 'a' -", "find all '\\", "find all \"\\",
                                     "find all 'a' = ", "find all 'a' = x =", "find all 'a' = x 'b' = x", "find all {'a'} = s {'b'} = s", "find all at least 1 'a' named x 'b' = x", "find all between 2 and 1 'a'", "find all at most 0 'a'", "find all exactly 0 'a' 'b'"]]
@@ -1479,6 +1487,17 @@ def c16(ctx):
                                       "litq": q, "litbody": list(body.encode("latin-1")),
                                       "texts": [bs, bs[1:], pb + [int((f1 + f2), 16)] if len(f1 + f2) == 2 and all(c in "41fA" for c in f1 + f2) else bs + bs,
                                                 [92] + bs]})
+    # escapes of other languages that are NOT escapes here: backslash + character stands for that character
+    base = max(c["id"] for c in cases)
+    k = 0
+    for q in (39, 34):
+        for body, bs in (("\\u0041", b"u0041"), ("\\u00e9x", b"u00e9x"), ("\\U0001F600", b"U0001F600"), ("\\101", b"101"), ("\\0", b"0"), ("\\e[0m", b"e[0m"),
+                         ("a\\u0041b", b"au0041b"), ("\\N{DASH}", b"N{DASH}"), ("\\cA", b"cA"), ("\\d\\s\\w", b"dsw"), ("\\$\\^\\.", b"$^.")):
+            k += 1
+            bl = list(bs)
+            cases.append({"id": base + k, "cmds": [{"kind": "find", "amt": {"k": "all"}, "body": [{"k": "lit", "s": bl, "neg": False, "ci": False}]}],
+                          "srcbytes": list(("find all " + chr(q) + body + chr(q)).encode("latin-1")), "litq": q, "litbody": list(body.encode("latin-1")),
+                          "texts": [bl, bl[1:], [65], [195, 169, 120], bl + bl]})
     exps, st3 = vlib.eval_cases(ctx.scratch, cases, module="EvalLit", extra_const="CONSTANT LexDev = {}")
     ctx.states += st3["distinct"]
     ctx.transitions += st3["states"]
